@@ -2247,7 +2247,9 @@ impl NullableInterval {
             Self::Null { datatype } => {
                 Some(ScalarValue::try_from(datatype).unwrap_or(ScalarValue::Null))
             }
-            Self::MaybeNull { values } | Self::NotNull { values }
+            // A `MaybeNull` interval is never a single value: besides the one
+            // non-null value in its range it also admits NULL.
+            Self::NotNull { values }
                 if values.lower == values.upper && !values.lower.is_null() =>
             {
                 Some(values.lower.clone())
